@@ -40,6 +40,9 @@ Definition drops_at (c : cfg) (j : nat) (it : item) : bool := sc_filter (stage_a
 Definition sval (j : nat) (v : Z) : Z := v * 16 + Z.of_nat j + 1.          (* what stage j computes (harness/h_pipeline.cpp) *)
 Definition exc_id (j : nat) (it : item) : Z := (Z.of_nat j + 1) * 1000 + fst it.
 
+(* the value with which item [tag] arrives at stage j *)
+Fixpoint chain (j : nat) (tag : Z) : Z := match j with O => tag | S m => sval m (chain m tag) end.
+
 Inductive ptask := TGen | TL (j : nat) (it : item) | TU (j : nat) (it : item).
 
 Inductive spc := SOinc | SEnq | SSub | SDeq | SAdd.                 (* LimitGatedScheduler::schedule *)
@@ -70,7 +73,8 @@ Record event := EV { e_tid : Z; e_kind : Z; e_j : Z; e_tag : Z; e_val : Z }.
    9 pipeline returned (also logged by the harness), 11 left in a gate queue at destruction (payload never destroyed),
    12 unlimited task skipped by the cancelled wrapper (payload destroyed with the wrapper), 13 generator instance skipped,
    14 a generator call begins (also logged by the harness), 15 unlimited task did not run its stage because hasException(),
-   16 exception captured by trySetCurrentException (tag = exception id) *)
+   16 exception captured by trySetCurrentException (tag = exception id),
+   17 the item's journey ends normally at this stage (filtered out, or the stage is the sink) *)
 
 Record shared := SH {
   gates : list gate; bag : list (nat * ptask); bprods : list nat; pout : Z;
@@ -371,7 +375,10 @@ Section Frames.
         if has_exc s then ok (add_log s (ev t 15 (zj j) it)) (goto TOGuard armed) ch 18
         else ok (add_log s (ev t 1 (zj j) it)) (goto TBody armed) ch 18
     | TBody =>
-        if throws_at c j it then ok (add_log s (ev t 3 (zj j) it)) (w_unw (goto TBody armed) (Some (exc_id j it))) ch 19
+        if throws_at c j it then
+          (* a limited task catches at once (its own try/catch); an unlimited one unwinds through its OutstandingGuard *)
+          if lim then ok (add_log s (ev t 3 (zj j) it)) (goto (TCatchCas (exc_id j it)) armed) ch 19
+          else ok (add_log s (ev t 3 (zj j) it)) (w_unw (goto TOGuard armed) (Some (exc_id j it))) ch 19
         else ok (add_log s (ev t 2 (zj j) it)) (goto (if lim then TCbDeq else TNext) false) ch 19
     | TCbDeq =>
         let '(res, ch1) := gate_deq c s j ch in
@@ -386,7 +393,7 @@ Section Frames.
         end
     | TCbAdd => ok (upd_gate s j (g_w_res 1)) (goto TNext armed) ch 21
     | TNext =>
-        if drops_at c j it || Nat.leb (nstages c) (S j) then ok s (goto TOGuard armed) ch silent
+        if drops_at c j it || Nat.leb (nstages c) (S j) then ok (add_log s (ev t 17 (zj j) it)) (goto TOGuard armed) ch silent
         else ok s (goto (TSched SOinc) armed) ch silent
     | TSched pc =>
         step_sched s th (S j) (fst it, sval j (snd it)) pc (fun p => FTask lim j it (TSched p) armed) (FTask lim j it TOGuard armed) r ch
@@ -407,15 +414,13 @@ Section Frames.
     end.
 
   (* ---- stack unwinding with exception e: guards run (they are ordinary visible steps), handlers catch.
-          An exception reaches a frame only at the program points where it waits for a callee that can throw: the stage body
-          (TBody), the return from pipeNext_.execute when the next stage is unlimited and ran inline (TOGuard / GExc: the frame
+          An exception reaches a frame only at the program points where it waits for a callee that can throw (a throwing stage
+          body is handled in the TBody step itself): the return from pipeNext_.execute when the next stage is unlimited and ran inline (TOGuard / GExc: the frame
           already holds its continuation), the wrapper after its body (PFin). *)
   Definition step_unwind (s : shared) (th : thread) (e : Z) (f : frame) (r : list frame) (ch : list Z) : R :=
     match f with
     | FInline => ok s (w_depth (w_stack th r) (depth th - 1)) ch silent
-    | FTask true j it TBody a => ok s (w_unw (w_stack th (FTask true j it (TCatchCas e) a :: r)) None) ch silent
     | FTask true j it TOGuard a => ok s (w_unw (w_stack th (FTask true j it (TCatchCas e) a :: r)) None) ch silent
-    | FTask false j it TBody a => ok s (w_stack th (FTask false j it TOGuard a :: r)) ch silent
     | FTask false j it TOGuard a => step_task s th false j it TOGuard a r ch
     | FGen GExc => ok s (w_stack th (FGen GDone :: r)) ch silent
     | FGen GDone => step_gen s th GDone r ch
